@@ -196,15 +196,7 @@ func (s Stack) supportsConj() bool {
 	return true
 }
 
-func (s Stack) modelled() bool {
-	for _, w := range s.Wraps {
-		if w.Kind == "fmt" && w.Fmt != "noop" && w.Fmt != "b64det" {
-			return false
-		}
-	}
-
-	return true
-}
+func (s Stack) modelled() bool { return true }
 
 func (s Stack) coq() string {
 	t := "SMem"
@@ -219,12 +211,16 @@ func (s Stack) coq() string {
 		case "batched":
 			t = fmt.Sprintf("(SBatched %s %s)", hx.CoqZ(int64(w.Limit)), t)
 		case "fmt":
-			f := "FNoop"
-			if w.Fmt == "b64det" {
-				f = "FB64"
+			// the model's formatter is an injective recoding: base64 and the EDV formatter (MAC'ed names/values, encrypted
+			// document) are the same abstract formatter; "rand" = random formatted keys
+			switch w.Fmt {
+			case "noop":
+				t = "(SFmt FNoop " + t + ")"
+			case "b64det", "edvdet":
+				t = "(SFmt FB64 " + t + ")"
+			default:
+				t = "(SFmtR FB64 " + t + ")"
 			}
-
-			t = "(SFmt " + f + " " + t + ")"
 		}
 	}
 
@@ -325,6 +321,21 @@ func (w *world) wrap() error {
 	}
 
 	w.store = s
+
+	// the store configuration goes through every layer (formattedstore keeps it in a side store of its own)
+	cfg := spi.StoreConfiguration{TagNames: []string{"a", "b"}}
+	if err := p.SetStoreConfig(storeName, cfg); err != nil {
+		return fmt.Errorf("SetStoreConfig: %w", err)
+	}
+
+	got, err := p.GetStoreConfig(storeName)
+	if err != nil {
+		return fmt.Errorf("GetStoreConfig: %w", err)
+	}
+
+	if len(got.TagNames) != 2 || got.TagNames[0] != "a" || got.TagNames[1] != "b" {
+		return fmt.Errorf("GetStoreConfig returned %v", got.TagNames)
+	}
 
 	return nil
 }
@@ -1231,7 +1242,7 @@ func main() {
 	for i, st := range edvStacks {
 		for j := 0; j < perEdv; j++ {
 			r := rng.Fork(uint64(9_000_000 + i*1000 + j))
-			runCase("random-edv", randomCase(r, st, 4+r.Intn(12)), tr, false)
+			runCase("random-edv", randomCase(r, st, 4+r.Intn(12)), tr, true)
 		}
 	}
 
